@@ -39,6 +39,15 @@ def named_graphs(n):
         order = sorted(set(order), key=order.index)
         if len(order) == n:
             out["zigzag%d" % n] = [(order[i], order[i + 1]) for i in range(n - 1)]
+    if n == 6:
+        # dense 6-vertex graphs (triangles, every vertex with several neighbours at every distance) and graphs whose
+        # components each contain a cycle
+        out["prism6"] = [(0, 1), (1, 2), (2, 0), (3, 4), (4, 5), (5, 3), (0, 3), (1, 4), (2, 5)]
+        out["octahedron6"] = [(u, v) for u, v in itertools.combinations(range(6), 2) if v - u != 3]
+        out["wheel6"] = [(0, i) for i in range(1, 6)] + [(i, i % 5 + 1) for i in range(1, 6)]
+        out["k33_6"] = [(u, v) for u in range(3) for v in range(3, 6)]
+        out["two_triangles6"] = [(0, 1), (1, 2), (2, 0), (3, 4), (4, 5), (5, 3)]
+        out["tri_handle6"] = [(0, 1), (1, 2), (2, 0), (0, 3), (3, 4), (4, 5), (5, 3), (1, 4)]
     return out
 
 
@@ -70,6 +79,12 @@ def multigraphs_small():
         "single_edge": (2, [(0, 1)]),
         "k1": (1, []),
         "path3_par": (3, [(0, 1), (0, 1), (1, 2)]),
+        # disconnected, a cycle available in more than one component
+        "two_par": (4, [(0, 1), (1, 0), (2, 3), (2, 3)]),
+        "tri_and_par": (5, [(0, 1), (1, 2), (2, 0), (3, 4), (4, 3)]),
+        "two_tri_disjoint": (6, [(0, 1), (1, 2), (2, 0), (3, 4), (4, 5), (5, 3)]),
+        "isolated3": (3, []),
+        "edge_and_isolated": (3, [(0, 1)]),
     }
 
 
